@@ -16,6 +16,8 @@ import (
 type Env struct {
 	barArrived map[int]int // barrier number -> clients arrived
 	barOpen    map[int]bool
+	ackParked  int // acknowledgements parked by an AckGate fault
+	ackGen     int
 	barWaiting int
 	c    *Case
 	hist []Ev
@@ -399,6 +401,12 @@ func (e *Env) onQuiescent() bool {
 		vrt.Wake(vrt.KeyOf(e) + 1000003)
 		return true
 	}
+	if e.ackParked > 0 {
+		e.ackGen++
+		e.log(Ev{K: "env", C: -2, Op: "slow-acks-complete", J: -1, Q: -1, G: -1})
+		vrt.Wake(vrt.KeyOf(e) + 2000003)
+		return true
+	}
 	if len(e.parked) > 0 {
 		n := e.parked[0]
 		e.log(Ev{K: "env", C: -2, Op: "autorelease", J: n, Q: -1, G: -1})
@@ -455,6 +463,14 @@ func (e *Env) root() {
 	vrt.Block(vrt.KeyOf(&e.clientsLeft), "root waits for clients", func() bool { return e.clientsLeft == 0 })
 	e.log(Ev{K: "env", C: -2, Op: "epilogue", J: -1, Q: -1, G: -1})
 	e.ensureRunning(-2)
+	if e.ackParked > 0 {
+		// slow acknowledgements are still outstanding: record the state at rest with them pending
+		// (a quiescent point for the oracles), then let them complete
+		vrt.Settle()
+		e.log(Ev{K: "q", C: -2, J: -1, Q: -1, G: -1, Sn: e.snapshot(false)})
+		e.ackGen++
+		vrt.Wake(vrt.KeyOf(e) + 2000003)
+	}
 	e.openAll = true
 	for _, n := range append([]int(nil), e.parked...) {
 		e.releaseGate(n)
